@@ -470,6 +470,19 @@ theorem reaperLoad_missing_default (dflt : β) (bs : Int) (isFile : Int → Bool
     have hpos : ∀ n : Nat, ¬ ((n : Int) + 1 = 0) := by intro n; omega
     simp [Gen.reaperLoad, Gen.Default.reaperLoad, hmiss, hb, hpos]
 
+/-- the same for the function that is actually chained when `wait` is false -/
+theorem reaperLoadFn_missing_default (dflt : β) (bs : Int) (isFile : Int → Bool)
+    (readResult : Int → Except PyErr (Option (List β))) (readBatch : Int → Except PyErr (List γ)) (fuel : Nat)
+    (existsAt : Nat → Int → Bool) (x : Int) (b : List γ)
+    (hmiss : isFile x = false) (hb : readBatch x = .ok b) (hne : b ≠ []) :
+    Gen.reaperLoadFn true false dflt bs isFile readResult readBatch fuel existsAt x =
+      .ok (List.replicate b.length dflt) := by
+  cases b with
+  | nil => exact absurd rfl hne
+  | cons a t =>
+    have hpos : ∀ n : Nat, ¬ ((n : Int) + 1 = 0) := by intro n; omega
+    simp [Gen.reaperLoadFn, Gen.Default.reaperLoadFn, Gen.reaperLoad, Gen.Default.reaperLoad, hmiss, hb, hpos]
+
 /-- **a result file that is there, readable and non-empty is loaded as it is** — waiting (once the loop has seen it) or
 not, with or without a stand-in: a stand-in never replaces an existing result -/
 theorem reaperLoadFn_present (hasDefault wait : Bool) (dflt : β) (bs : Int) (isFile : Int → Bool)
@@ -539,10 +552,7 @@ theorem reaperStream_default_total (dflt : β) (bs : Int) (isFile : Int → Bool
       have := reaperLoadFn_present true false dflt bs isFile readResult readBatch fuel existsAt f rs hf (by simp) hr hne
       exact ⟨rs ++ s, by simp [Gen.chainRest, this, hs]⟩
     | false =>
-      have := reaperLoad_missing_default dflt bs isFile readResult readBatch f b hf hb hbne
-      have h2 : Gen.reaperLoadFn true false dflt bs isFile readResult readBatch fuel existsAt f =
-          .ok (List.replicate b.length dflt) := by
-        simpa [Gen.reaperLoadFn, Gen.Default.reaperLoadFn] using this
+      have h2 := reaperLoadFn_missing_default dflt bs isFile readResult readBatch fuel existsAt f b hf hb hbne
       exact ⟨List.replicate b.length dflt ++ s, by simp [Gen.chainRest, h2, hs]⟩
 
 /-- **how `reap_combos` makes its Reaper**: for the stored number of batches, with the caller's `wait`, and with a
